@@ -397,23 +397,23 @@ func runHeadersFirst(k *mon.Case) {
 	bh := g.Tree.Genesis
 	accepted := map[*refchain.Block]bool{g.Tree.Genesis: true}
 	interleave := r.Chance(1, 2)
+	blocksFirst := r.Chance(1, 2)
 	var pendingBlocks []*refchain.Block
 	for _, b := range blocks {
 		if s.Failed {
 			return
 		}
-		before := s.Status[b]
-		s.DeliverHeader(b)
-		if st := s.Status[b]; (st == sim.SHeader || st == sim.SStored) && accepted[b.Parent] && (before == sim.SUnknown || before == sim.SStored) {
-			_ = before
+		if blocksFirst && r.Chance(1, 3) {
+			// the full block arrives before its header is announced
+			s.DeliverBlock(b)
+			k.Count("hf.block_before_header", 1)
 		}
-		// the header was accepted iff the node now knows it (status) and its rule class is not header-invalid
-		if st := s.Status[b]; st == sim.SHeader || st == sim.SStored {
-			if !accepted[b] {
-				accepted[b] = true
-				if b.CumWork.Cmp(bh.CumWork) > 0 {
-					bh = b
-				}
+		s.DeliverHeader(b)
+		// best header model: most cumulative work among the headers ProcessBlockHeader accepted, first seen wins ties
+		if s.LastHeaderOK && !accepted[b] {
+			accepted[b] = true
+			if b.CumWork.Cmp(bh.CumWork) > 0 {
+				bh = b
 			}
 		}
 		hash, height := c.BestHeader()
@@ -427,8 +427,10 @@ func runHeadersFirst(k *mon.Case) {
 			return
 		}
 		k.Count("hf.best_header_checks", 1)
-		pendingBlocks = append(pendingBlocks, b)
-		if interleave && r.Chance(1, 3) {
+		if st := s.Status[b]; st != sim.SStored && st != sim.SOrphan {
+			pendingBlocks = append(pendingBlocks, b)
+		}
+		if interleave && len(pendingBlocks) > 0 && r.Chance(1, 3) {
 			i := r.Intn(len(pendingBlocks))
 			s.DeliverBlock(pendingBlocks[i])
 			pendingBlocks = append(pendingBlocks[:i], pendingBlocks[i+1:]...)
